@@ -86,6 +86,12 @@ prop("C02", claimed=True, level="model_checking", engine="E-SEQ (isolated worker
      note="Depth and alphabet are bounded; merges are explicit and awaited in this part (policy-driven / concurrent behaviour belongs to the scheduler scenarios); delete_all_documents and commit_opstamp() deviations of the pinned tree are recorded known findings.",
      design_ref="3/C02")
 
+prop("C04", claimed=True, level="translation_validation", engine="E-SEQ (translation validation of every merge) + history engine",
+     technique="every enumerated merge is validated as a translation: the canonical dump of the merged segment must equal the concatenation, in source order, of the live documents of the source dumps; plus bounded-exhaustive histories under a merge-everything policy against the reference model",
+     text="Every merge of 1-3 source segments of 1-3 documents (all field types, positions, multi-valued fast fields, stored fields, JSON) x every delete subset (incl. a whole source and everything -> empty result) x source orders x doc-store stacking vs re-compression x compressor change, through IndexWriter::merge, merge_indices and merge_filtered_segments, and structured 40 / 130 / 200-document sources crossing the 128-document block: stored fields, fast values, field norms and every term's documents, frequencies and positions of the output equal those of the sources' live documents in source order; no stale term, no deletes left. History family: every history of 3 (thorough 4) operations with a policy that merges whenever two segments exist (uncommitted and committed merges between all operations) and with explicit merges, checked against the reference model after every observing step.",
+     note="Bounded families; the dump relies on the public readers (validated against models by C07 / C08 / C09); interleavings of the merge thread other than the canonical 'merge finishes before the next operation' schedule belong to the scheduler scenarios (DESIGN.md).",
+     design_ref="3/C04")
+
 ALL = ["C%02d" % i for i in range(1, 21)]
 REASON_TODO = "check not built yet in this revision of /verif (design in DESIGN.md section 3); will be claimed when its engine lands"
 
